@@ -26,10 +26,13 @@ class FS:
     init: bool = True
     kw_only: bool = False
     default: Optional[str] = None  # source text of default, None = required
+    factory: Optional[str] = None  # source text of a default_factory (value differs per instance)
 
     def render(self) -> str:
         opts = []
-        if self.default is not None:
+        if self.factory is not None:
+            opts.append(f"default_factory={self.factory}")
+        elif self.default is not None:
             opts.append(f"default={self.default}")
         if not self.compare:
             opts.append("compare=False")
@@ -106,7 +109,9 @@ class Universe:
         self.cls: dict[str, type] = {}
 
     def exec(self) -> "Universe":
-        code = compile(self.source, f"<universe {self.name}>", "exec")
+        # dont_inherit: this module's own `from __future__ import annotations` must not leak into the
+        # universe (plain annotations unless the universe asks for postponed ones in its source)
+        code = compile(self.source, f"<universe {self.name}>", "exec", dont_inherit=True)
         exec(code, self.module.__dict__)
         for n in self.order:
             self.cls[n] = self.module.__dict__[n]
@@ -191,6 +196,9 @@ class Universe:
 # ---------------------------------------------------------------------------
 
 CORE_PRELUDE = """
+import itertools as _itertools
+_{P}serial = _itertools.count(1)
+
 class {P}Color(enum.Enum):
     RED = 1
     GREEN = "g"
@@ -303,6 +311,39 @@ def core_specs(P: str = "U", variant: int = 0) -> list[CS]:
                 FS("args", "child", f"tuple[{E}, ...]", "tuple", (E,), default="()"),
                 FS("fn", "child", f"{E} | None", "opt", (E,), default="None"),
                 FS("kwargs", "child", f"Tuple[{E}, ...]", "tuple", (E,), default="()"),
+            ),
+        ),
+        CS(
+            f"{P}Ser",
+            (E,),
+            F(
+                FS("v", "prop", "int", "int", default="0"),
+                # differs per instance, is neither comparable nor an init argument: must never reach the content digest
+                FS("serial", "prop", "int", "int", compare=False, init=False, factory=f"lambda: next(_{P}serial)"),
+            ),
+        ),
+        CS(
+            f"{P}Picky",
+            (E,),
+            F(FS("v", "prop", "int", "int", default="0"), FS("note", "prop", "str", "str", compare=False, default='""')),
+            body='    def __post_init__(self):\n        super().__post_init__()\n        if self.note == "boom":\n            raise ValueError("picky node refuses this note")\n',
+        ),
+        CS(
+            f"{P}Ann",
+            (E,),
+            F(
+                FS("target", "child", f"{E} | None", "opt", (E,), default="None"),
+                FS("aside", "child", f"{E} | None", "opt", (E,), compare=False, default="None"),
+                FS("extras", "child", f"tuple[{E}, ...]", "tuple", (E,), compare=False, default="()"),
+            ),
+        ),
+        CS(
+            f"{P}Case",
+            (E,),
+            F(
+                FS("Name", "prop", "str", "str", default='""'),
+                FS("_Aux", "prop", "int", "int", default="0"),
+                FS("Zed", "child", f"{E} | None", "opt", (E,), default="None"),
             ),
         ),
         CS(f"{P}Left", (E,), F(FS("l", "child", f"{E} | None", "opt", (E,), default="None"), FS("lv", "prop", "int", "int", default="0"))),
